@@ -32,7 +32,12 @@ LeadingWs(b) == b = "wsCall"
 CutSets == {s \in SUBSET (1..5) : Cardinality(s) <= 3}
 Inserts == {[k |-> "none", at |-> 0]} \cup [k : {"empty", "ws"}, at : 0..4]
 ChunkCases == [body : Bodies, cuts : CutSets, ins : Inserts, cl : BOOLEAN]
-GateCases == [method : Methods, ct : CTypes]
+(* what the refused request carries: the verdict 405 / 415 must not depend on it (a body the RPC layer itself would refuse -  *)
+(* not JSON, empty, blank, above the size limit - and with or without a Content-Length)                                        *)
+GateBodies == {"call", "garbage", "empty", "blank", "oversize"}
+GateCases == {x \in [method : Methods, ct : CTypes, body : GateBodies, cl : BOOLEAN] :
+                 \/ x.body = "call" /\ x.cl                                      \* the plain case: every method and content type
+                 \/ x.body # "call" /\ "rpc" \notin Gate(x.method, x.ct)}        \* refusals: every body class, both framings
 
 VARIABLES c, phase, chunkIdx, sniff, seenSig
 vars == <<c, phase, chunkIdx, sniff, seenSig>>
